@@ -109,14 +109,39 @@ def r2_format_taint(R) -> None:
             return True
         return None
 
+    visiting: Set[Tuple[int, str]] = set()
+
+    def concat_parts(e: ast.AST) -> List[ast.AST]:
+        if isinstance(e, ast.BinOp) and isinstance(e.op, ast.Add):
+            return concat_parts(e.left) + concat_parts(e.right)
+        return [e]
+
     def judge_name(nid: int, name: str, depth: int = 0) -> Tuple[str, str]:
         """('ok'|'tainted'|'unknown', explanation)"""
         if depth > 8:
             return ('unknown', 'definition chain too long')
         verdicts = []
         for (site, v) in f.lf.values_reaching(nid, name):
-            if site == PARAM or v is None:
+            if site == PARAM:
                 verdicts.append(('tainted', f'`{name}` is (or may be) the raw parameter'))
+                continue
+            sn = f.cfg.nodes[site]
+            if v is None and sn.kind == 'stmt' and isinstance(sn.ast, ast.AugAssign) and isinstance(sn.ast.op, ast.Add) and isinstance(sn.ast.target, ast.Name):
+                # name += a + b: every appended piece must be a constant or brace-escaped, and so must what was there before
+                parts = concat_parts(sn.ast.value)
+                bad = [p_ for p_ in parts if sanitised_value(p_) is not True]
+                if bad:
+                    raw = any(isinstance(x, ast.Name) and x.id in f.fi.params() for x in ast.walk(bad[0]))
+                    verdicts.append(('tainted' if raw else 'unknown', f'unescaped piece appended to the template: `{text(bad[0])[:70]}`'))
+                    continue
+                if (site, name) in visiting:
+                    continue  # loop-carried: judged by the other definitions
+                visiting.add((site, name))
+                verdicts.append(judge_name(site, name, depth + 1))
+                visiting.discard((site, name))
+                continue
+            if v is None:
+                verdicts.append(('unknown', f'`{name}` is bound by `{sn.label()[:50]}`'))
                 continue
             # re.sub(const, const-without-braces, <name>)
             if is_call(v, 're.sub') and len(v.args) == 3 and isinstance(v.args[1], ast.Constant) and isinstance(v.args[2], ast.Name):
@@ -188,6 +213,25 @@ def _beliefs(R, f_escape: Escape):
     fd = folder(R.repo, P)
 
     def fact_single_group(site: Site):
+        # the asserted list is the list of `_`-prefixed keys of the match's group dictionary whose group matched
+        import re as _re
+        from rules.parser_roles import TermMatch
+        from fsa.match import nnf_atoms
+        tm = TermMatch(R)
+        mm = _re.match(r'assert len\((\w+)\) == 1$', site.key)
+        an = [n for n in tm.f.cfg.nodes if n.kind == 'stmt' and isinstance(n.ast, ast.Assert) and text(n.ast)[:120] == site.key]
+        if not mm or not an:
+            return (False, 'assertion not recognised')
+        lc = tm.f.as_listcomp(an[0].id, ast.Name(id=mm.group(1), ctx=ast.Load()))
+        if lc is None or len(lc.generators) != 1:
+            return (False, f'`{mm.group(1)}` is not a list built by one filter over the group dictionary')
+        g = lc.generators[0]
+        tg = [x.id for x in ast.walk(g.target) if isinstance(x, ast.Name)]
+        conds = sorted((text(a_), tr) for c_ in g.ifs for (a_, tr) in nnf_atoms(c_, True))
+        ok_shape = tm.f.etext(an[0].id, g.iter) == f'{tm.m}.groupdict().items()' and len(tg) == 2 and text(lc.elt) == tg[0] \
+            and conds == sorted([(f"{tg[0]}.startswith('_')", True), (f'{tg[1]} is None', False)])
+        if not ok_shape:
+            return (False, f'`{mm.group(1)}` is not [k for k, v in match.groupdict().items() if k.startswith("_") and v is not None]: `{text(lc)[:90]}`')
         # each top-level alternative of term_re that has named `_` groups has them in mutually exclusive branches
         t = fd.get('term_re')
         parsed = rx.parse(t.pattern, t.flags)
@@ -212,13 +256,15 @@ def _beliefs(R, f_escape: Escape):
         # the subscript key must derive from the regex's group dictionary
         from rules.common import tainted_names
         fi_ = R.repo.func(site.func)
-        tainted = tainted_names(fi_.node, ['groupdict'])
+        seeds = ['groupdict'] + [text(a.targets[0]) for a in ast.walk(fi_.node) if isinstance(a, ast.Assign) and len(a.targets) == 1
+                                 and isinstance(a.targets[0], ast.Name) and method_call(a.value, 'groupdict')]
+        tainted = tainted_names(fi_.node, seeds)
         prov = False
         for n in ast.walk(fi_.node):
             if isinstance(n, ast.Subscript) and text(n)[:120] == site.key and isinstance(n.ctx, ast.Load):
                 names = {x.id for x in ast.walk(n.slice) if isinstance(x, ast.Name)}
                 prov = bool(names) and names <= tainted and any(
-                    isinstance(a, ast.Assign) and text(a.targets[0]) == 'groupdict' and method_call(a.value, 'groupdict') for a in ast.walk(fi_.node))
+                    isinstance(a, ast.Assign) and method_call(a.value, 'groupdict') for a in ast.walk(fi_.node))
         if not prov:
             return (False, 'the enum key does not come from match.groupdict()')
         t = fd.get('term_re')
@@ -258,17 +304,19 @@ def _beliefs(R, f_escape: Escape):
         return (False, 'searched string has no literal ":"')
 
     def fact_typeerror_unreachable(site: Site):
-        f = Fn(R, f'{P}.parse_terms.<locals>.process_term_match')
+        from rules.parser_roles import TermMatch
+        tm = TermMatch(R)
+        f = tm.f
         kinds = set()
-        for d in f.assigns_to('index'):
-            v = d.ast.value
-            if v is None:
-                continue
-            if isinstance(v, ast.Constant):
+        for d in f.vdefs(tm.idx):
+            v = d.value
+            if d.op is not None:
+                kinds.add('?:' + text(d.node.ast))
+            elif isinstance(v, ast.Constant):
                 kinds.add(type(v.value).__name__)
             elif is_call(v, 'int'):
                 kinds.add('int')
-            elif isinstance(v, (ast.Name, ast.Subscript)) and 'index_' in text(v):
+            elif tm.raw_kind(d.node.id, v) is not None:
                 kinds.add('str')
             else:
                 kinds.add('?:' + text(v))
@@ -333,7 +381,8 @@ def _beliefs(R, f_escape: Escape):
         return (True, 'receiver is brace-escaped (C13.R2) and has one {} per term (C01.R3 skip-predicate agreement)')
 
     return [
-        (lambda s: s.kind == 'assert' and 'len(type_key_list) == 1' in s.key, 'exactly one named `_` group matched', fact_single_group),
+        (lambda s: s.kind == 'assert' and s.func.endswith('process_term_match') and s.key.startswith('assert len(') and s.key.endswith(') == 1'),
+         'exactly one named `_` group matched', fact_single_group),
         (lambda s: s.kind == 'assert' and 'symbol == functions[name]' in s.key, 'function symbols of one name are equal', fact_functions_equal),
         (lambda s: s.kind == 'assert' and 'self.name == other.name' in s.key, 'combine() is called on same-name symbols only', fact_same_name),
         (lambda s: s.exc == 'TypeError' and s.kind == 'raise' and s.func.split('.')[-1] in ('__str__', 'resolve_by_type_pair'), 'defensive TypeError: index is int|str|None by construction', fact_typeerror_unreachable),
@@ -640,41 +689,57 @@ def r7_end_of_input(R) -> None:
     ys = [n for n in f.cfg.nodes if n.ast is not None and n.kind == 'stmt' and any(isinstance(x, ast.Yield) for x in ast.walk(n.ast))]
     if not R.require(q, len(ys), 'yield of a complete statement', fi=f.fi, pred=lambda x: isinstance(x, ast.Yield)):
         return
+    # completion predicate: the conditions on state carried from line to line under which a buffered statement is
+    # released.  (Conditions on values computed afresh in this iteration - the blank-statement skip - hold nothing back.)
+    from fsa.match import atoms_equal, nnf_atoms
+
+    def carried(tn, a) -> bool:
+        names = {x.id for x in ast.walk(a) if isinstance(x, ast.Name) and x.id in f.lf.locals}
+        return bool(names) and all(any(s == PARAM or lp.id not in f.cfg.nodes[s].loops for (s, _v) in f.lf.values_reaching(tn.id, nm)) for nm in names)
+
+    def flagform(a, truth):
+        """`x is False` / `x == False` / `x is not True` read as the flag x being false."""
+        if isinstance(a, ast.Compare) and len(a.ops) == 1 and isinstance(a.ops[0], (ast.Is, ast.Eq)) and isinstance(a.left, ast.Name) \
+                and isinstance(a.comparators[0], ast.Constant) and isinstance(a.comparators[0].value, bool):
+            return (a.left, truth == a.comparators[0].value)
+        return (a, truth)
+
+    atoms = []
     comp = None
-    for (tid, lab) in f.guards_of(ys[0].id):
-        tn = f.cfg.nodes[tid]
-        if tn.kind == 'test' and lab == 'T' and lp.id in tn.loops and len(tn.loops) == 1:
-            if comp is None:
-                comp = tn
+    for (a, truth, tn) in f.guard_atoms(ys[0].id):
+        if tn.kind == 'test' and lp.id in tn.loops and len(tn.loops) == 1 and carried(tn, a):
+            atoms.append(flagform(a, truth))
+            comp = comp or tn
     if comp is None:
         raise Unsupported(f'{q}: completion predicate not found')
-    atoms = conj_atoms(comp.ast)
     post = [t for t in f.tests() if not t.loops and lp.id in f.dom[t.id]]
-    for a in atoms:
-        names = {x.id for x in ast.walk(a) if isinstance(x, ast.Name)}
-        # expected negation
+    for (a, truth) in atoms:
         covered = False
+        ca = cmp_of(a)
+        if ca is not None and not truth:
+            ca = ca.negate()
         for t in post:
             raises = any(isinstance(f.cfg.nodes[b].ast, ast.Raise) for (b, lab) in t.succ if lab == 'T')
             if not raises:
                 continue
-            ca, ct = cmp_of(a), cmp_of(t.ast)
+            pa = nnf_atoms(t.ast, True)
+            if len(pa) != 1:
+                continue
+            b_, tb = flagform(*pa[0])
+            if atoms_equal(a, b_) and tb != truth:
+                covered = True
+            ct = cmp_of(b_)
+            if ct is not None and not tb:
+                ct = ct.negate()
             if ca is not None and ct is not None:
                 if ct == ca.negate() or ct.as_int() == ca.negate().as_int():
                     covered = True
                 # x == 0 in loop; x != 0 / x > 0 after (x is never negative past the in-loop check)
                 if ca.op == '==' and ct.op in ('<', '!=') and set(ca.expr.terms) == set(ct.expr.terms):
                     covered = True
-            elif isinstance(a, ast.Name):
-                if isinstance(t.ast, ast.UnaryOp) and isinstance(t.ast.op, ast.Not) and text(t.ast.operand) == a.id:
-                    covered = True
-                if isinstance(t.ast, ast.Compare) and text(t.ast) in (f'{a.id} is False', f'{a.id} == False', f'{a.id} is not True'):
-                    covered = True
-            elif isinstance(a, ast.UnaryOp) and isinstance(a.op, ast.Not) and isinstance(a.operand, ast.Name):
-                if text(t.ast) == a.operand.id:
-                    covered = True
-        R.check(covered, q, f'end-of-input:{text(a)}', f'an incomplete statement at end of input (`{text(a)}` false) is rejected',
-                f'the completion predicate requires `{text(a)}` but no check after the loop raises when it is false: a non-empty buffer '
+        shown = text(a) if truth else f'not ({text(a)})'
+        R.check(covered, q, f'end-of-input:{shown}', f'an incomplete statement at end of input (`{shown}` false) is rejected',
+                f'the completion predicate requires `{shown}` but no check after the loop raises when it is false: a non-empty buffer '
                 f'is dropped silently at end of input', where=f.where(comp))
     R.expect(q, len(atoms), 2, 'conjuncts of the completion predicate')
 
